@@ -28,6 +28,15 @@ def run(ctx):
     import queue_rules as Q
     fa = inline.inlined(facts, add_header.id, stop=lambda d: facts.fns[d].rec.get("local") and facts.fns[d].file != add_header.file, extern_ok=Q.std_small)
     ctx.touch(fa)
+    # the functions that make up header admission: add_header and the private helpers it is built from (where the list is pushed to)
+    admit = {d for dep, d in fa.inlined if "{closure" not in d} | {add_header.id}
+    def reaches_admit(fid, depth=0):
+        if fid in admit:
+            return True
+        g_ = facts.fns.get(fid)
+        if g_ is None or not g_.rec.get("local") or depth > 3:
+            return False
+        return False
     NAME, VALUE = ("sym", "incoming-name"), ("sym", "incoming-value")
     hdr_fields = [x["name"] for x in facts.adt(HEADER)["variants"][0]["fields"]]
     fld_field = [x["name"] for x in facts.adt(HEADER)["variants"][0]["fields"] if x["ty"] == HFIELD][0]
@@ -80,7 +89,7 @@ def run(ctx):
                     ct_present = c[2] == "Some"
             pushes = [e for e in p.calls() if re.search(r"Vec::<T(, A)?>::push$", e[2]) and any(absint.contains(a, NAME) and absint.contains(a, VALUE) for a in (e[8] or e[3]))]
             others = [short(e[2]) for e in p.calls() if re.search(r"Vec::<T(, A)?>::(insert|remove|swap_remove|retain|clear|truncate|extend\w*|drain)$", e[2])]
-            dl = p.state.read_key((1, "*", "." + M0.dlen_f))
+            dl = p.state.read_key((1, "*") + M0.dlen_key)
             len_set = dl[0] != "init"
             replaced = [k for k, v in p.state.mem.items() if len(k) > 1 and "*" in k and k[0] not in (1, 2) and (v == VALUE or (isinstance(v, tuple) and absint.contains(v, VALUE) and not absint.contains(v, NAME)))]
             got = (len(pushes), len_set, bool(replaced), bool(others))
@@ -108,7 +117,7 @@ def run(ctx):
     ok = o[0] == "call" and o[1].endswith("eq_ignore_ascii_case") and len(o[2]) == 2
     ctx.ob("C19.1", "%s|case-insensitive" % eq.id, "names are compared ASCII-case-insensitively over the whole name", ok, "%s:%d" % (eq.file, eq.line), origin_str(o))
     wh = roles.inherent(facts, RESP, "with_header")
-    calls = wh.call_blocks(lambda t: call_is(t, add_header.id))
+    calls = wh.call_blocks(lambda t: call_name(t) in admit)
     ctx.ob("C19.1", "%s|delegates" % wh.id, "with_header goes through add_header", len(calls) == 1, "%s:%d" % (wh.file, wh.line))
 
     # ---- C19.2 who writes Response.headers
@@ -138,7 +147,7 @@ def run(ctx):
         ok = o[0] == "call" and re.search(r"Vec::<T>::(with_capacity|new)$", o[1]) is not None
         ctx.ob("C19.2", "%s|starts-empty" % g.id, "a new Response starts with an empty header list (not the caller's vector)", ok, g.loc(bb), origin_str(o))
     ctx.floor("C19.2 constructions of the header list in the constructor", n_cons, 1)
-    adds = rnew.call_blocks(lambda t: call_is(t, add_header.id))
+    adds = rnew.call_blocks(lambda t: call_name(t) in admit)
     ctx.ob("C19.2", "%s|param-through-add_header" % rnew.id, "the constructor adds the supplied headers one by one through add_header", len(adds) >= 1 and all(rnew.in_loop(b) for b in adds), "%s:%d" % (rnew.file, rnew.line))
     # uses of the `headers` parameter (local 2): only into_iter
     uses = [u for u in rnew.uses().get(2, [])]
@@ -188,7 +197,7 @@ def run(ctx):
         c = facts.find_fns(r"^response::Response::<std::io::Cursor<std::vec::Vec<u8>>>::%s$" % name)
         ctx.require(len(c) == 1, "C19.4: constructor %s not found" % name)
         c = c[0]
-        fc = inline.inlined(facts, c.id, stop=lambda d: facts.fns[d].rec.get("local") and (facts.fns[d].file != c.file or d == add_header.id), extern_ok=Q.std_small)
+        fc = inline.inlined(facts, c.id, stop=lambda d: facts.fns[d].rec.get("local") and (facts.fns[d].file != c.file or d in admit), extern_ok=Q.std_small)
         ctx.touch(fc)
         rets = [p for p in absint.explore(fc, 0, None, max_paths=4000) if p.end[0] == "return"]
         ok = bool(rets)
@@ -197,8 +206,10 @@ def run(ctx):
             r = absint.deep(p.state, p.ret())
             if not (r[0] == "agg" and r[1] == RESP):
                 ok = False; detail = symex.sym_str(r)[:100]; continue
-            dl = r[3].get(M.dlen_f)
-            rd = r[3].get(M.reader_f)
+            dl = M.at(r[3], M.dlen_path)
+            rd = M.at(r[3], M.reader_path)
+            dl = None if dl == ("unknown",) else dl
+            rd = None if rd == ("unknown",) else rd
             lens = [x for x in absint.walk_terms(dl) if x and x[0] == "call" and re.search(r"(String|Vec::<T(, A)?>|<impl str>|<impl \\[T\\]>)::len$", x[1])] if dl else []
             bytelen = dl is not None and dl[0] == "some" and len(lens) == 1 and not any(x and x[0] == "call" and re.search(r"chars|count$", x[1]) for x in absint.walk_terms(dl))
             same = bytelen and absint.contains(lens[0], DATA) and rd is not None and absint.contains(rd, DATA) and any(x and x[0] == "call" and re.search(r"std::io::Cursor::<T>::new$", x[1]) for x in absint.walk_terms(rd))
@@ -207,7 +218,7 @@ def run(ctx):
                 detail = "len=%s reader=%s" % (symex.sym_str(dl)[:80] if dl else None, symex.sym_str(rd)[:80] if rd else None)
         ctx.ob("C19.4", "%s|declares-byte-length" % c.id, "%s declares exactly the byte length (`len()`) of the value it wraps" % name, ok, "%s:%d" % (c.file, c.line), detail)
     def eval_ctor(c):
-        fc = inline.inlined(facts, c.id, stop=lambda d: facts.fns[d].rec.get("local") and (facts.fns[d].file != c.file or d == add_header.id), extern_ok=Q.std_small)
+        fc = inline.inlined(facts, c.id, stop=lambda d: facts.fns[d].rec.get("local") and (facts.fns[d].file != c.file or d in admit), extern_ok=Q.std_small)
         ctx.touch(fc)
         out = []
         for p in absint.explore(fc, 0, None, max_paths=4000):
@@ -218,24 +229,25 @@ def run(ctx):
         return out
     emp = facts.find_fns(r"^response::Response::<std::io::Empty>::empty$")[0]
     rs = eval_ctor(emp)
-    ok = bool(rs) and all(r.get(M.dlen_f) == ("some", ("const", 0, "0_usize", None)) and any(x and x[0] == "call" and x[1] == "std::io::empty" for x in absint.walk_terms(r.get(M.reader_f))) for r in rs)
+    ok = bool(rs) and all(M.at(r, M.dlen_path) == ("some", ("const", 0, "0_usize", None)) and any(x and x[0] == "call" and x[1] == "std::io::empty" for x in absint.walk_terms(M.at(r, M.reader_path))) for r in rs)
     ctx.ob("C19.4", "%s|zero-length" % emp.id, "an empty response declares length 0 over an empty reader", ok, "%s:%d" % (emp.file, emp.line))
     ff = facts.find_fns(r"^response::Response::<std::fs::File>::from_file$")[0]
     rs = eval_ctor(ff)
     ok = bool(rs)
     for r in rs:
-        dl = r.get(M.dlen_f)
+        dl = M.at(r, M.dlen_path)
+        dl = None if dl == ("unknown",) else dl
         calls = [x[1] for x in absint.walk_terms(dl) if x and x[0] == "call"] if dl else []
         if not (dl == ("none",) or any(re.search(r"File::metadata$", c_) for c_ in calls) or any(x and x[0] == "payload" for x in absint.walk_terms(dl))):
             ok = False
         if any(re.search(r"unwrap$|expect$", c_) for c_ in calls):
             ok = False
-        if not absint.contains(r.get(M.reader_f), ("init", (1,))):
+        if not absint.contains(M.at(r, M.reader_path), ("init", (1,))):
             ok = False
     ctx.ob("C19.4", "%s|metadata-length" % ff.id, "from_file declares the file's metadata length, or none if unavailable, over that very file", ok, "%s:%d" % (ff.file, ff.line))
     wd = roles.inherent(facts, RESP, "with_data")
     rs = eval_ctor(wd)
-    ok = bool(rs) and all(r.get(M.reader_f) == ("init", (2,)) and r.get(M.dlen_f) == ("init", (3,)) for r in rs)
+    ok = bool(rs) and all(M.at(r, M.reader_path) == ("init", (2,)) and M.at(r, M.dlen_path) == ("init", (3,)) for r in rs)
     ctx.ob("C19.4", "%s|stores-arguments" % wd.id, "with_data stores the reader and length it is given", ok, "%s:%d" % (wd.file, wd.line))
 
     # ---- C19.5 serialisation: each stored header once, in order
